@@ -44,17 +44,32 @@ fn uint_out(w: u32, x: &str) -> String {
 /// a bit position or stride as the declaration spells it (optionally with a leading zero, which
 /// the parser reads as decimal all the same)
 fn num(f: &Field, x: u32) -> String {
-    if f.zero_pad {
-        format!("0{x}")
-    } else {
-        format!("{x}")
+    match f.syntax {
+        2 => format!("{x:#x}"),
+        3 => {
+            // binary with a separator every four digits: 0b1_0000
+            let b = format!("{x:b}");
+            let mut out = String::from("0b");
+            for (i, c) in b.chars().enumerate() {
+                if i > 0 && (b.len() - i) % 4 == 0 {
+                    out.push('_');
+                }
+                out.push(c);
+            }
+            out
+        }
+        _ if f.zero_pad => format!("0{x}"),
+        _ => format!("{x}"),
     }
 }
 
 fn range_text(f: &Field) -> String {
     // single-bit entries of a list may be written `n` or `n..=n`
     let one = |&(lo, hi): &(u32, u32), in_list: bool| -> String {
-        if lo == hi && in_list && !f.qualified {
+        if f.syntax == 1 {
+            // half-open: the upper bound is exclusive
+            format!("{}..{}", num(f, lo), num(f, hi + 1))
+        } else if lo == hi && in_list && !f.qualified {
             num(f, lo)
         } else {
             format!("{}..={}", num(f, lo), num(f, hi))
@@ -85,7 +100,7 @@ fn attr_text(f: &Field) -> String {
     // the syntactic variants the parser accepts for the same meaning:
     //   one bit:        bit(n)   or bits(n..=n)      (bool and 1-bit types alike)
     //   list of bits:   bits([a, b]) or bit([a, b])
-    let (name, range) = if single_bit && ((f.kind == Kind::Bool) != f.qualified) {
+    let (name, range) = if single_bit && f.syntax != 1 && ((f.kind == Kind::Bool) != f.qualified) {
         ("bit", num(f, f.ranges[0].0))
     } else if f.ranges.len() > 1 && all_single && f.qualified {
         let parts: Vec<String> = f.ranges.iter().map(|r| num(f, r.0)).collect();
@@ -159,7 +174,7 @@ fn getter_type(f: &Field, j: usize) -> String {
     }
 }
 
-fn enum_decl(out: &mut String, j: usize, w: u32, discs: &[u128], exhaustive: bool, style: u8) {
+fn enum_decl(out: &mut String, j: usize, w: u32, discs: &[u128], exhaustive: bool, style: u8, implicit: bool) {
     let s = storage_bits(w);
     // accepted spellings: `exhaustive = b`, legacy `exhaustive: b`, and nothing at all for a
     // non-exhaustive enum; discriminants in decimal, hexadecimal or binary
@@ -178,6 +193,11 @@ fn enum_decl(out: &mut String, j: usize, w: u32, discs: &[u128], exhaustive: boo
         if conditional && k == 0 {
             // two cfg-alternatives for one discriminant, the inactive one declared first
             let _ = writeln!(out, "    #[cfg(any())]\n    Alt{k} = {d},\n    #[cfg(all())]");
+        }
+        if implicit && k > 0 && *d == discs[k - 1] + 1 {
+            // left implicit: Rust's rule is previous + 1
+            let _ = writeln!(out, "    V{k},");
+            continue;
         }
         let _ = match (style / 4) % 3 {
             1 => writeln!(out, "    V{k} = {d:#x},"),
@@ -234,16 +254,16 @@ pub fn layout_module(l: &Layout) -> String {
         match &f.kind {
             Kind::EnumExh => {
                 let discs = f.exhaustive_variants();
-                enum_decl(&mut o, j, w, &discs, true, f.attr_order.wrapping_add(f.variant_rot as u8));
+                enum_decl(&mut o, j, w, &discs, true, f.attr_order.wrapping_add(f.variant_rot as u8), f.syntax == 5);
             }
             Kind::EnumOpt { discs } => {
                 let d: Vec<u128> = discs.iter().map(|h| h.0).collect();
                 if f.claims_exhaustive {
                     // style 200 = additionally write the first missing value as a variant that is
                     // configured away
-                    enum_decl(&mut o, j, w, &d, true, if f.variant_rot == 1 { 200 } else { 0 });
+                    enum_decl(&mut o, j, w, &d, true, if f.variant_rot == 1 { 200 } else { 0 }, f.syntax == 5);
                 } else {
-                    enum_decl(&mut o, j, w, &d, false, f.attr_order.wrapping_add(f.variant_rot as u8).wrapping_add(d.len() as u8));
+                    enum_decl(&mut o, j, w, &d, false, if f.syntax == 5 { 0 } else { f.attr_order.wrapping_add(f.variant_rot as u8).wrapping_add(d.len() as u8) }, f.syntax == 5);
                 }
             }
             Kind::Nested => {
@@ -295,11 +315,20 @@ pub fn layout_module(l: &Layout) -> String {
         },
     };
     let debug_attr = if l.debug { ", debug" } else { "" };
+    let mut macro_types: Vec<String> = Vec::new();
+    let struct_start = o.len();
     let _ = writeln!(o, "#[bitfield({}{}{})]\n#[derive(PartialEq, Eq)]\npub struct T {{", base_ty(n), default_attr, debug_attr);
     for (j, f) in l.fields.iter().enumerate() {
-        let et = elem_type(f, j);
+        let mut et = elem_type(f, j);
+        if f.syntax == 4 {
+            et = format!("({et})");
+        }
+        if l.macro_wrapped {
+            macro_types.push(et.clone());
+            et = format!("$t{}", macro_types.len() - 1);
+        }
         let ty = match f.array {
-            Some(a) => format!("[{et}; {}]", a.count),
+            Some(a) => format!("[{et}; {}]", if f.syntax == 2 || f.syntax == 3 { num(f, a.count) } else { a.count.to_string() }),
             None => et,
         };
         match f.doc {
@@ -315,6 +344,12 @@ pub fn layout_module(l: &Layout) -> String {
         }
     }
     let _ = writeln!(o, "}}\n");
+    if l.macro_wrapped {
+        // the declaration is the body of a macro; its field types arrive as `$t:ty` fragments
+        let body = o.split_off(struct_start);
+        let params: Vec<String> = (0..macro_types.len()).map(|k| format!("$t{k}:ty")).collect();
+        let _ = writeln!(o, "macro_rules! declare {{\n    ({}) => {{\n{}    }};\n}}\ndeclare!({});\n", params.join(", "), body, macro_types.join(", "));
+    }
 
     // conversions
     for (j, f) in l.fields.iter().enumerate() {
